@@ -147,7 +147,7 @@ class refinedmesh(mesh1d):
         mesh1d.__init__(self, ncell, length)
         dx1 = (nratioa+nratiob) * length / ((nratioa+ratio*nratiob)*ncell)
         #dx2 = ratio*dx1
-        nc1 = int((ncell*nratioa)/(nratioa+nratiob))
+        nc1 = int((ncell*nratioa)/(nratioa+nratiob) + 1.e-9) # truncation, safe against round-off when the proportion is a whole number
         nc2 = ncell-nc1
         self.xf = np.append(
                     np.linspace(    0.0, dx1*nc1, nc1, endpoint=False),
